@@ -15,7 +15,7 @@ CFG = dict(
                'past every sent update; that abstraction is validated by the per-run correspondence only. Panics of the worker thread are a '
                'runtime behaviour the model only represents as a dead flag. Not expressible: interleavings inside a lock scope, weak memory, '
                'crossbeam channel / parking_lot correctness; direct unsynchronised use of IncrementalEngine (without the KG lock) is out of scope.',
-    bin='c19', n_quick=1000, n_thorough=10000,
+    bin='c19', n_quick=1000, n_thorough=5000,
     corr_name='Model/ConcInc.v vs StorageEngine writes + IncrementalEngine::read_relation_consistent under the schedule controller',
     rule='3 hand-written configurations (sequential duplicates/absent deletes; two writers vs a reader: enumerated; writer+read vs '
          'writer: sampled) + random sequential histories (one thread, 4-12 ops over 2 relations and 4 tuple ids with reads) + random '
